@@ -200,14 +200,19 @@ func amountsProfile(property string, tier Tier) *explore.Profile {
 // every hop of the NFTs with nonces 1, 256 and 257 for `suffix` more levels. Frontier width is 1
 // during the script, so the cost is ~520 steps plus the suffix.
 func highNonceProfile(name string, tier Tier, oracles []explore.Oracle, suffix int) *explore.Profile {
+	return highNonceProfileAt(name, tier, oracles, suffix, 257)
+}
+
+// highNonceProfileAt stops the script at the given counter (257, or 256 = 0x0100, whose low byte
+// is zero) and explores the suffix from there.
+func highNonceProfileAt(name string, tier Tier, oracles []explore.Oracle, suffix int, target int64) *explore.Profile {
 	o := menuOpts{thorough: tier.Thorough(), shards: 2}
-	const target = 257
 	return &explore.Profile{
 		Name: name, EnvCfg: ledgerEnv(2), Seeds: seedsOf("sft"),
 		// 1 (burn own nonce 1) + 1 + 2*253 + 1 scripted steps from the seed (nonces 1,2) to nonce 257
-		Depth:    509 + suffix,
+		Depth:    509 - 2*int(257-target) + suffix,
 		Deadline: tierDeadline(tier), WithGhost: true, Workers: 4,
-		Oracles: append(append([]explore.Oracle{}, oracles...), scriptReached{}),
+		Oracles: append(append([]explore.Oracle{}, oracles...), scriptReached{target: uint64(target)}),
 		Menu: func(w *world.World) []world.Action {
 			hi := int64(w.Ghost.Highest[tS])
 			if hi < target {
@@ -225,7 +230,7 @@ func highNonceProfile(name string, tier Tier, oracles []explore.Oracle, suffix i
 			}
 			acts := hopMenu(w, o, uni.S, []int64{1, 256, 257}, true)
 			acts = append(acts, handoverMenu(w, o, [][]byte{uni.S})...)
-			acts = append(acts, uni.Create(uni.C1, uni.S, 1), uni.Create(uni.B0, uni.S, 1))
+			acts = append(acts, uni.Create(uni.C1, uni.S, 1), uni.Create(uni.B0, uni.S, 1), uni.Create(uni.A0, uni.S, 1))
 			for _, n := range []int64{256, 257} {
 				acts = append(acts, uni.Call(uni.A0, uni.A0, vmcommon.BuiltInFunctionESDTNFTAddQuantity, uni.S, uni.Big(n), uni.Big(1)))
 				acts = append(acts, uni.Call(uni.A0, uni.A0, vmcommon.BuiltInFunctionESDTNFTBurn, uni.S, uni.Big(n), uni.Big(1)))
@@ -236,14 +241,34 @@ func highNonceProfile(name string, tier Tier, oracles []explore.Oracle, suffix i
 	}
 }
 
+// highNonceAliasedProfile: as the high-nonce profile, but the creator also holds nonce 2 of the
+// collection named S||01 (undisciplined system contract), whose key S||01||02 has the bytes of
+// (S, nonce 258 = 0x0102) - the nonce the creator of S issues next after the script.
+func highNonceAliasedProfile(name string, tier Tier, oracles []explore.Oracle, suffix int) *explore.Profile {
+	p := highNonceProfileAt(name, tier, oracles, suffix, 257)
+	p.Seeds = func(env *world.Env) []explore.SeedState {
+		b := uni.SeedBuilder(env, "sft")
+		b.Must(uni.SetRole(uni.A0, uni.S1, uni.NFTRoles...))
+		b.Must(uni.Create(uni.A0, uni.S1, 1))
+		b.Must(uni.Create(uni.A0, uni.S1, 1))
+		// nonce 1 of S||01 has the key bytes of (S, 257): given up, so that the script is not stopped
+		b.Must(uni.Call(uni.A0, uni.A0, vmcommon.BuiltInFunctionESDTNFTBurn, uni.S1, uni.Big(1), uni.Big(1)))
+		return []explore.SeedState{{Name: "sft+aliased-collection", W: b.W, Legs: b.Legs, Failed: b.Failed}}
+	}
+	return p
+}
+
 // scriptReached counts the states in which the scripted prefix has reached its target, so that a
 // stalled script fails the run's non-vacuity self-check instead of passing silently.
-type scriptReached struct{}
+type scriptReached struct{ target uint64 }
 
 func (scriptReached) Leg(c *explore.Ctx, leg *world.Leg) {}
-func (scriptReached) State(c *explore.Ctx, w *world.World) {
-	if w.Ghost.Highest[tS] >= 257 {
+func (s scriptReached) State(c *explore.Ctx, w *world.World) {
+	if w.Ghost.Highest[tS] >= s.target {
 		c.Class("high-nonce-reached")
+		if s.target != 257 {
+			c.Class(fmt.Sprintf("high-nonce-%d-reached", s.target))
+		}
 	}
 }
 
